@@ -284,7 +284,7 @@ class Interp:
             mm = re.match(r"^\w+ i(\d+) (.*) to i(\d+)$", rhs)
             x = self.val(mm.group(2), p)
             w0, w1 = int(mm.group(1)), int(mm.group(3))
-            if x is TOP:
+            if x is TOP or not isinstance(x, Aff):
                 p.env[dst] = TOP
             elif op == "trunc":
                 p.env[dst] = Aff(0, x.b % (1 << w1)) if x.const or (x.a % (1 << w1) == 0) else TOP
@@ -427,7 +427,16 @@ class Interp:
                 return ("callfork", dst, [(q.mem, [("call", name, args)] + list(q.calls), list(q.stores), q.ret, list(q.trace)) for q in paths])
             p.calls.append(("ext", name, args))
             if dst:
-                p.env[dst] = TOP
+                if re.match(r"^(?:tail )?call (?:noalias |nonnull |noundef |align \d+ )*(?:i8\*|ptr|%[\w.]+\*)", rhs):
+                    # a pointer handed back by a function the analysis cannot see into: a region of a foreign allocator (unknown size,
+                    # not zeroed), so that the obligations can say whose memory the block is made of
+                    self.nregion += 1
+                    reg = "ALLOC%d" % self.nregion
+                    self.maybe_null.add(reg)
+                    p.allocs.append((reg, TOP, "ext:" + name))
+                    p.env[dst] = Ptr(reg, Aff(0, 0))
+                else:
+                    p.env[dst] = TOP
             return None
         if op == "br":
             mm = re.match(r"^br label %([\w.]+)$", rhs)
